@@ -2705,7 +2705,7 @@ positions_to_tree_indexes(const tsk_treeseq_t *ts, const double *positions,
     // This is tricky. If there are 0 positions, we calloc a size of 1
     // we must calloc, because memset will have no effect when called with size 0
     *tree_indexes = tsk_calloc(num_positions, sizeof(*tree_indexes));
-    if (tree_indexes == NULL) {
+    if (*tree_indexes == NULL) {
         ret = tsk_trace_error(TSK_ERR_NO_MEMORY);
         goto out;
     }
@@ -3537,7 +3537,7 @@ tsk_treeseq_branch_allele_frequency_spectrum(const tsk_treeseq_t *self,
         goto out;
     }
 
-    if (parent == NULL || last_update == NULL) {
+    if (parent == NULL || last_update == NULL || branch_length == NULL) {
         ret = tsk_trace_error(TSK_ERR_NO_MEMORY);
         goto out;
     }
@@ -5053,7 +5053,7 @@ tsk_treeseq_split_edges(const tsk_treeseq_t *self, double time, tsk_flags_t flag
     tsk_bookmark_t sort_start;
 
     memset(output, 0, sizeof(*output));
-    if (split_edge == NULL) {
+    if (split_edge == NULL || tables == NULL) {
         ret = tsk_trace_error(TSK_ERR_NO_MEMORY);
         goto out;
     }
@@ -7921,8 +7921,8 @@ sv_tables_init(sv_tables_t *self, tsk_size_t n)
     self->beta = tsk_malloc(n * sizeof(*self->beta));
     self->alpha = tsk_malloc(n * sizeof(*self->alpha));
     if (self->parent == NULL || self->child == NULL || self->sib == NULL
-        || self->lambda == NULL || self->tau == NULL || self->beta == NULL
-        || self->alpha == NULL) {
+        || self->pi == NULL || self->lambda == NULL || self->tau == NULL
+        || self->beta == NULL || self->alpha == NULL) {
         ret = tsk_trace_error(TSK_ERR_NO_MEMORY);
         goto out;
     }
@@ -8449,6 +8449,10 @@ tsk_treeseq_divergence_matrix(const tsk_treeseq_t *self, tsk_size_t num_sample_s
         = tsk_malloc(num_nodes * sizeof(*sample_set_index_map));
     tsk_size_t j;
 
+    if (sample_set_index_map == NULL) {
+        ret = tsk_trace_error(TSK_ERR_NO_MEMORY);
+        goto out;
+    }
     if (stat_node) {
         ret = tsk_trace_error(TSK_ERR_UNSUPPORTED_STAT_MODE);
         goto out;
@@ -9425,9 +9429,9 @@ tsk_treeseq_pair_coalescence_stat(const tsk_treeseq_t *self, tsk_size_t num_samp
     pair_count = tsk_malloc(num_set_indexes * sizeof(*pair_count));
     total_pair = tsk_malloc(num_set_indexes * sizeof(*total_pair));
     if (nodes_parent == NULL || nodes_sample == NULL || sample_count == NULL
-        || coalescing_pairs == NULL || bin_weight == NULL || bin_values == NULL
-        || outside == NULL || pair_count == NULL || visited == NULL
-        || total_pair == NULL) {
+        || coalescing_pairs == NULL || coalescence_time == NULL || bin_weight == NULL
+        || bin_values == NULL || outside == NULL || pair_count == NULL
+        || visited == NULL || total_pair == NULL) {
         ret = tsk_trace_error(TSK_ERR_NO_MEMORY);
         goto out;
     }
